@@ -517,7 +517,9 @@ class IoContract(Generic[TermList_t]):
         outputvars = self.outputvars.copy()
         assumptions = self.a.copy()
         guarantees = self.g.copy()
-        return type(self)(assumptions, guarantees, inputvars, outputvars)
+        # a copy holds the same constraints as the original: simplifying again could drop a guarantee
+        # that the first simplification kept (a constraint implied without margin)
+        return type(self)(assumptions, guarantees, inputvars, outputvars, simplify=False)
 
     def __le__(self, other: object) -> bool:
         if not isinstance(other, type(self)):
